@@ -1,5 +1,6 @@
 (** C07 — no Job starts before its startAfter time, and every due Job eventually starts. *)
-From Furiko Require Import Queue.World Proofs.QueueP.
+From Furiko Require Import Queue.World Proofs.QueueP Proofs.QueueInvP Proofs.QueueEqP.
+Open Scope list_scope.
 
 (** JobConfig Jobs: the decision is DStart only at a clock >= startAfter; StartJob stamps
     that same clock reading or a later one. *)
@@ -59,3 +60,19 @@ Example c07_nonvacuous :
   can_start 99 1 0 (mkQJ 1 true 10 PEnqueue (Some 100) None false false 0) = DWait /\
   can_start 100 1 0 (mkQJ 1 true 10 PEnqueue (Some 100) None false false 0) = DStart.
 Proof. split; reflexivity. Qed.
+
+(** every due Job eventually starts, in the form an executable model can carry: over a fully
+    delivered history, after a pass that found nothing to do, a Job whose startAfter has
+    passed (or that has none) is still queued only if it is an Enqueue Job and the API itself
+    holds maxConcurrency owned active Jobs *)
+Theorem c07_due_job_left_only_at_true_limit :
+  forall now m ops w' armed,
+    run_ok2 (init_qworld now m) ops ->
+    let w := qrun_world (init_qworld now m) ops in
+    qc_pending w = [] -> qs_pending w = [] ->
+    sync_q w = (w', [], true, armed) ->
+    forall j, In j (queued_jobs w) ->
+      match q_start_after j with Some a => a <= q_clock w | None => True end ->
+      q_policy j = PEnqueue /\ max_conc w < acount (qa_jobs w) + 1.
+Proof. exact due_job_left_only_at_true_limit. Qed.
+Print Assumptions c07_due_job_left_only_at_true_limit.
